@@ -24,13 +24,16 @@ class DummyQueue:
     delayed: dict[datetime, list[Message]] = field(default_factory=dict)
     dead: list[Message] = field(default_factory=list)
     processing: set[Message] = field(default_factory=set)
-    # id of a message in `processing` -> (category it was taken from, its key in `delayed`)
-    origins: dict[str, tuple[MessageCategory, datetime | None]] = field(default_factory=dict)
+    # id of a message in `processing` -> (category it was taken from, its key in `delayed`,
+    # the consumer which has taken it)
+    origins: dict[str, tuple[MessageCategory, datetime | None, object]] = field(
+        default_factory=dict,
+    )
 
     def give_back(self, msg: Message) -> None:
         """Moves the message from `processing` back to where it was taken from."""
         self.processing.discard(msg)
-        category, delayed_until = self.origins.pop(msg.key.id_, ("NORMAL", None))
+        category, delayed_until, _ = self.origins.pop(msg.key.id_, ("NORMAL", None, None))
         if category == "DELAYED" and delayed_until is not None:
             self.delayed.setdefault(delayed_until, []).append(msg)
         elif category == "DEAD":
